@@ -2,7 +2,7 @@ package main
 
 func init() {
 	var specs []LLSpec
-	for _, f := range []string{"f1", "f2", "f3", "f4", "f5", "f6", "f7", "f8", "transform"} {
+	for _, f := range []string{"f1", "f2", "f3", "f4", "f5", "f6", "f7", "f8", "f9", "transform"} {
 		specs = append(specs, LLSpec{File: "c09.c", Func: "harness_garbage_" + f, Params: map[string]int{"N": 7, "M": 3, "REUSE": 1}, ParamsT: map[string]int{"N": 9, "M": 5}, Reach: []string{"garbage/done"}})
 	}
 	specs = append(specs, LLSpec{File: "c09.c", Func: "harness_garbage_ycck", Reach: []string{"garbage/done"}})
